@@ -56,7 +56,7 @@ def _committed_consumer(session, uuid):
 
 
 def run_concurrent(ctx, world_fn, reqs, watch_provider=1, watch_consumer=1,
-                   fault_kinds=None, max_preemptions=None):
+                   fault_kinds=None, max_preemptions=None, contended=None):
     """returns (pre, results, final, sched, writes) where writes[i] is the
     list of observations made at the start of request i's transactions that
     later committed changes"""
@@ -67,7 +67,8 @@ def run_concurrent(ctx, world_fn, reqs, watch_provider=1, watch_consumer=1,
                 w, fault_kinds)
             sched.faults = fh
         else:
-            sched, un = inject.install_scheduler(w)
+            sched, un = inject.install_scheduler(w) if contended is None \
+                else inject.install_scheduler(w, contended)
         starts = {}
         writes = {i: [] for i in range(len(reqs))}
 
